@@ -206,6 +206,66 @@ Definition get_max_log (e : expr) (q : option query) : option idx3 :=
   | Some f => Some (max3 (index_atom_log e f))
   end.
 
+(* ------------------------------------------------------------------ the same functions with the proposed repairs *)
+(* Three independent repairs of the traversal are modelled as flags, so that the check keeps following the code
+   when a repair is applied to /repo (the harness reads the flags from the source text of the three functions and
+   the correspondence run then ties the chosen variant to the behaviour; all flags false = the functions above):
+     ea  find_partial_derivatives also enters Pow exponents, Matrix entries and the arguments of any other
+         expression (elementary functions, ...)
+     pe  SymbolicExpr also translates the exponent of a Pow
+     vq  get_index_*_derivatives_atom accepts a VectorFunction F: the chains over its components *)
+Fixpoint symbolic_g (pe : bool) (e : expr) : expr :=
+  match e with
+  | Add l => Add (map (symbolic_g pe) l)
+  | Mul l => Mul (map (symbolic_g pe) l)
+  | Pow b x => Pow (symbolic_g pe b) (if pe then symbolic_g pe x else x)
+  | Num s => Num s
+  | Tup l => Tup (map (symbolic_g pe) l)
+  | Seq l => Tup (map (symbolic_g pe) l)
+  | Mat imm rows => Mat imm (map (map (symbolic_g pe)) rows)
+  | Vec n => Sym n
+  | Chain ops a => Sym (chain_name ops a)
+  | Sym s => Sym s
+  | Fn f l => Fn f (map (symbolic_g pe) l)
+  end.
+
+Fixpoint find_pd_g (ea : bool) (e : expr) : list chain :=
+  match e with
+  | Add l => flat_map (find_pd_g ea) l
+  | Mul l => flat_map (find_pd_g ea) l
+  | Pow b x => if ea then find_pd_g ea b ++ find_pd_g ea x else find_pd_g ea b
+  | Tup l => flat_map (find_pd_g ea) l
+  | Seq l => flat_map (find_pd_g ea) l
+  | Mat _ rows => if ea then flat_map (flat_map (find_pd_g ea)) rows else []
+  | Chain (o :: r) a => [(o :: r, a)]
+  | Fn _ l => if ea then flat_map (find_pd_g ea) l else []
+  | _ => []
+  end.
+
+Definition match_q_g (vq : bool) (rest : list dop) (a : fatom) (q : query) : bool :=
+  match q with
+  | QAtom f => match rest with [] => fatom_eqb a f | _ => false end
+  | QVec n => vq && match rest, a with [], FComp m _ => String.eqb m n | _, _ => false end
+  end.
+
+Definition index_atom_phys_g (ea vq : bool) (e : expr) (q : query) : list idx3 :=
+  flat_map (fun c : chain => if match_q_g vq (strip_phys (fst c)) (snd c) q then [phys_index (fst c)] else [])
+           (sort_pd (find_pd_g ea e)).
+Definition index_atom_log_g (ea vq : bool) (e : expr) (q : query) : list idx3 :=
+  flat_map (fun c : chain => if match_q_g vq (strip_log (fst c)) (snd c) q then [log_index (fst c)] else [])
+           (sort_pd (find_pd_g ea e)).
+
+Definition get_max_phys_g (ea vq : bool) (e : expr) (q : option query) : option idx3 :=
+  match q with
+  | None => if is_pyseq e then None else Some (max3 (flat_map (index_atom_phys_g ea vq e) (atoms_of e)))
+  | Some f => Some (max3 (index_atom_phys_g ea vq e f))
+  end.
+Definition get_max_log_g (ea vq : bool) (e : expr) (q : option query) : option idx3 :=
+  match q with
+  | None => if is_pyseq e then None else Some (max3 (flat_map (index_atom_log_g ea vq e) (atoms_of e)))
+  | Some f => Some (max3 (index_atom_log_g ea vq e f))
+  end.
+
 (* ------------------------------------------------------------------ comparator glue for the case files *)
 Definition show_op (o : dop) : string :=
   match o with Dx => "dx" | Dy => "dy" | Dz => "dz" | D1 => "dx1" | D2 => "dx2" | D3 => "dx3" end.
